@@ -180,6 +180,9 @@ func propC01(w *World, r *Report) {
 	linkObligations(w, r, propC19, "C19", func(o *Obligation) bool {
 		return strings.HasPrefix(o.Construct, "CopyRecent reads under the ring's lock and modifies nothing") || strings.HasPrefix(o.Construct, "CopyRecent returns a fresh copy")
 	}, "O2")
+	// a recording holds the frames that arrived, each once: the ring slot a frame is kept in is a deep copy of its own (a
+	// slot sharing pixel rows with the source shows the newest frame in every buffered position)
+	linkObligations(w, r, propC02, "C02", func(o *Obligation) bool { return o.Rule == "C02.P2" && strings.Contains(o.Construct, "ring slot") }, "O1")
 }
 
 // checkMarkOnlyAfterStop: the oldest-mark (which discards buffered pre-trigger frames) is placed only in a
@@ -533,6 +536,11 @@ func propC03(w *World, r *Report) {
 		checkStopTaken(w, r, runs, roles, "L3")
 	}
 	checkRecorderConfigValidation(w, r, e)
+	// the frames counted from the trigger are the frames written from the trigger: the pre-trigger writes stop before the
+	// current frame (written twice it makes every recording one frame longer than its limit)
+	linkObligations(w, r, propC02, "C02", func(o *Obligation) bool {
+		return o.Rule == "C02.P2" && strings.HasPrefix(o.Construct, "pre-trigger write at")
+	}, "L4")
 	checkSettingsImmutable(w, r, "L1", "RecorderConfig:MinSecs|MaxSecs", "ThermalRecorder:MinSecs|MaxSecs", "Config:Recorder") // min-secs / max-secs reach the processor as configured
 }
 
@@ -1198,6 +1206,9 @@ func propC13(w *World, r *Report) {
 	checkHandleConnBadFrame(w, r)
 	checkSettingsImmutable(w, r, "B1", "ThermalMotion:EdgePixels", "Config:Motion") // the border the parsers tolerate zeros in is the configured edge-pixels
 	checkRingAdvancesOncePerFrame(w, r, runs, "B3", false, true)
+	// "ends the motion recording in progress with a cleanly closed file": the file the bad frame closed keeps a name of
+	// its own - a recording re-triggered within the same second must not be renamed over it
+	linkObligations(w, r, propC10, "C10", func(o *Obligation) bool { return strings.Contains(o.Construct, "sub-second resolution") }, "B2")
 }
 
 // ---------------------------------------------------------------------------------------
@@ -1336,6 +1347,7 @@ func propC17(w *World, r *Report) {
 			r.Check(m > 0, "V2", name, "-", fmt.Sprintf("decision '%s' in %d exit contexts", a.label, m))
 		}
 	}
+	checkCounterWidths(w, r, c, "V2")
 	// V3
 	var reqField string
 	for fi, k := range c.Tracked {
@@ -1555,6 +1567,62 @@ func checkAuxWiring(w *World, r *Report, runs *motionRuns) {
 					}
 				}
 				r.Check(called, "V5", "daemon wiring: the continuous recorder is put into constant-recorder mode", w.InstrPos(st.Call), "")
+				// ... that very recorder, and once: the mode (folder, pruning, no FFC switching) belongs to the object handed
+				// over as continuous sink - set on the motion recorder instead, or twice (the folder is derived from the
+				// current one), the files land where neither the pruning nor the start-up clean-up looks
+				{
+					var ctorCalls func(v ssa.Value, depth int, out map[ssa.Value]bool)
+					ctorCalls = func(v ssa.Value, depth int, out map[ssa.Value]bool) {
+						if v == nil || depth > 8 {
+							return
+						}
+						switch x := v.(type) {
+						case *ssa.MakeInterface:
+							ctorCalls(x.X, depth+1, out)
+						case *ssa.ChangeInterface:
+							ctorCalls(x.X, depth+1, out)
+						case *ssa.Phi:
+							for _, e := range x.Edges {
+								ctorCalls(e, depth+1, out)
+							}
+						case *ssa.UnOp:
+							if al, ok := x.X.(*ssa.Alloc); ok && al.Referrers() != nil {
+								for _, rf := range *al.Referrers() {
+									if sst, ok := rf.(*ssa.Store); ok && sst.Addr == ssa.Value(al) {
+										ctorCalls(sst.Val, depth+1, out)
+									}
+								}
+							}
+						case *ssa.Call:
+							out[v] = true
+						}
+					}
+					sinkObjs := map[ssa.Value]bool{}
+					ctorCalls(arg, 0, sinkObjs)
+					nSetCalls, onSink := 0, true
+					for _, b := range st.Fn.Blocks {
+						for _, in := range b.Instrs {
+							if call, ok := in.(*ssa.Call); ok {
+								if callee := call.Call.StaticCallee(); callee != nil && callee == setter && len(call.Call.Args) > 0 {
+									nSetCalls++
+									recv := map[ssa.Value]bool{}
+									ctorCalls(call.Call.Args[0], 0, recv)
+									if len(recv) == 0 {
+										onSink = false
+									}
+									for v := range recv {
+										if !sinkObjs[v] {
+											onSink = false
+										}
+									}
+								}
+							}
+						}
+					}
+					if setter != nil {
+						r.Check(nSetCalls == 1 && onSink, "V5", "daemon wiring: constant-recorder mode is set once, on the recorder that is handed over as continuous sink", w.InstrPos(st.Call), fmt.Sprintf("%d calls, on the continuous sink: %v", nSetCalls, onSink))
+					}
+				}
 				// ... whatever else the setter does (the folder may exist already: every connection after the first):
 				// the mode flag and the folder are set on every path through it
 				if setter != nil && len(setter.Params) > 0 {
@@ -1979,4 +2047,75 @@ func checkParserEdgeArg(w *World, r *Report, rule string) {
 		r.Check(strings.HasPrefix(got, want) && !strings.Contains(got, "select(") && !strings.Contains(got, "phi("), rule, "the parser is handed the configured edge width (the detector's bound, whatever happened before)", w.InstrPos(ev.Instr), got)
 	}
 	r.Check(n >= 1, rule, "parse call sites found", "-", fmt.Sprint(n))
+}
+
+// checkCounterWidths: a frame counter is as wide as the limit it is compared with. A counter field of the processor
+// (a field that is incremented by one somewhere) never reaches a comparison through a widening conversion: a narrower
+// counter wraps before a large limit (max-secs*fps at a high frame rate or a long max-secs) is reached, the file is
+// never closed and the next start hits an open recording.
+func checkCounterWidths(w *World, r *Report, c *Component, rule string) {
+	arch := w.Arch
+	if arch == "" {
+		arch = "amd64"
+	}
+	sizes := types.SizesFor("gc", arch)
+	counters := map[int]bool{}
+	var methods []*ssa.Function
+	for fn := range c.W.AllFuncs {
+		if rv := fn.Signature.Recv(); rv != nil && isPtrTo(rv.Type(), c.T) && len(fn.Blocks) > 0 {
+			methods = append(methods, fn)
+		}
+	}
+	sort.Slice(methods, func(i, j int) bool { return methods[i].String() < methods[j].String() })
+	for _, m := range methods {
+		for _, b := range m.Blocks {
+			for _, in := range b.Instrs {
+				if st, ok := in.(*ssa.Store); ok {
+					if fa, ok := st.Addr.(*ssa.FieldAddr); ok && isPtrTo(fa.X.Type(), c.T) && c.isIncrement(st, fa.Field) {
+						counters[fa.Field] = true
+					}
+				}
+			}
+		}
+	}
+	n := 0
+	for fi := range counters {
+		bt, ok := c.St.Field(fi).Type().Underlying().(*types.Basic)
+		if !ok || bt.Info()&types.IsInteger == 0 {
+			continue
+		}
+		n++
+		var bad ssa.Instruction
+		for _, m := range methods {
+			for _, b := range m.Blocks {
+				for _, in := range b.Instrs {
+					cv, ok := in.(*ssa.Convert)
+					if !ok || c.loadedField(cv.X) != fi {
+						continue
+					}
+					db, ok := cv.Type().Underlying().(*types.Basic)
+					if ok && db.Info()&types.IsInteger != 0 && sizes.Sizeof(db) > sizes.Sizeof(bt) {
+						// widened: is the wide value compared?
+						if cv.Referrers() != nil {
+							for _, rf := range *cv.Referrers() {
+								if bo, ok := rf.(*ssa.BinOp); ok {
+									switch bo.Op {
+									case token.LSS, token.LEQ, token.GTR, token.GEQ, token.EQL, token.NEQ:
+										bad = in
+									}
+								}
+							}
+						}
+					}
+				}
+			}
+		}
+		name := "counter " + c.fieldName(fi) + " is as wide as the limit it is compared with"
+		if bad != nil {
+			r.Fail(rule, name, w.InstrPos(bad), "the counter ("+bt.String()+") is widened for a comparison: it wraps before a limit beyond its range is reached", "")
+		} else {
+			r.Pass(rule, name, "-", bt.String())
+		}
+	}
+	r.Check(n >= 3, "G4", "frame counters of the processor found", "-", fmt.Sprint(n))
 }
